@@ -59,6 +59,9 @@ def generate(rng, tier):
         if rng.random() < 0.3:
             x = math.floor(x) + 0.5
         cases.append({"k": "x0", "x": float(x).hex()})
+    for n_ in range(0, 7):
+        for _ in range(12 if tier == "thorough" else 4):
+            cases.append({"k": "stale", "n": n_, "x": float(rng.uniform(-50, 50)).hex()})
     cases.append({"k": "none"})
     # one-tick and two-tick segments on the grid combined with ordinary ones: the operations agree with bool() on what
     # is empty (a one-tick segment is empty iff its float duration does not exceed the precision)
@@ -114,6 +117,23 @@ def run(case):
             r = Segment(x, x + 3).start
             assert float(r).is_integer()
             return {"r": int(r)}
+        if k == "stale":
+            # operands created BEFORE set_precision(n): whatever an operation returns afterwards is on the grid of the
+            # precision in force (nested, overlapping and identical operands; &, |, copy)
+            n = case["n"]
+            x = float.fromhex(case["x"])
+            Segment.set_precision(None)
+            old = Segment(x + 0.123456789, x + 3.987654321)
+            old2 = Segment(x + 1.1111111, x + 7.7777777)
+            Segment.set_precision(n)
+            big = Segment(x - 100, x + 100)
+            ok = True
+            for r in (big & old, old & big, old & old, old & old2, old | old2, old | old, old.copy(), big | old):
+                again = Segment(r.start, r.end)
+                ok = ok and r == again and hash(r) == hash(again) and r.start == again.start and r.end == again.end
+            want = Segment(old.start, old.end)
+            ok = ok and (big & old) == want and (old & big) == want and (old & old) == want
+            return {"ok": bool(ok)}
         if k == "tick":
             n = case["n"]
             kk = int(float.fromhex(case["x"]))
